@@ -11,6 +11,8 @@ pub mod c07;
 pub mod c08;
 pub mod c09;
 pub mod c10;
+pub mod c11;
+pub mod c12;
 pub mod c17;
 pub mod c18;
 pub mod c19;
@@ -29,6 +31,8 @@ pub fn dispatch(id: &str, opts: &Opts) -> Option<i32> {
         "C08" => run_property(&c08::C08, opts),
         "C09" => run_property(&c09::C09, opts),
         "C10" => run_property(&c10::C10, opts),
+        "C11" => run_property(&c11::C11, opts),
+        "C12" => run_property(&c12::C12, opts),
         "C17" => run_property(&c17::C17, opts),
         "C18" => run_property(&c18::C18, opts),
         "C19" => run_property(&c19::C19, opts),
